@@ -27,6 +27,27 @@ class _Mem:
         e = self.b.find("\0", k)
         return self.b[k:e if e >= 0 else len(self.b)]
 
+    def call(self, name, args, n):
+        """the C string functions a rewrite of the scan may use, on the block"""
+        if name in ("strlen", "__builtin_strlen") and len(args) == 1 and isinstance(args[0], int) and args[0] >= BASE:
+            return len(self.cstr(args[0]))
+        if name in ("strchr", "__builtin_strchr", "rawmemchr") and len(args) == 2 and isinstance(args[0], int) and args[0] >= BASE:
+            c = args[1] & 0xff
+            s = self.cstr(args[0])
+            if c == 0:
+                return args[0] + len(s)
+            i = s.find(chr(c))
+            return args[0] + i if i >= 0 else 0
+        if name in ("strnlen",) and len(args) == 2 and isinstance(args[0], int) and args[0] >= BASE:
+            return min(len(self.cstr(args[0])), args[1])
+        if name in ("memchr", "__builtin_memchr") and len(args) == 3 and isinstance(args[0], int) and args[0] >= BASE:
+            k = args[0] - BASE
+            for i in range(args[2]):
+                if self.deref(args[0] + i, n) == (args[1] & 0xff):
+                    return args[0] + i
+            return 0
+        raise FD.Unknown("call to %s" % name, n)
+
 
 def _members(fn_unit, node):
     return node
@@ -35,7 +56,7 @@ def _members(fn_unit, node):
 def _run_advance(unit, adv, mem, title, value):
     """metaiterator_advance(const char *&title, const char *&value): by-reference parameters are locals that are read back"""
     ps = unit.params(adv)
-    ev = FD.Eval(env={ps[0]["id"]: title, ps[1]["id"]: value}, deref=mem.deref, max_steps=4000)
+    ev = FD.Eval(env={ps[0]["id"]: title, ps[1]["id"]: value}, deref=mem.deref, call=mem.call, max_steps=4000)
     try:
         ev.run(unit.body(adv))
     except FD._Return:
@@ -67,7 +88,7 @@ def iterate(unit, block):
             st["start"] = ev.ev(inner)
             return ("iter", st["start"])
         return NotImplemented
-    ev = FD.Eval(deref=mem.deref, node_hook=bhook, max_steps=2000)
+    ev = FD.Eval(deref=mem.deref, call=mem.call, node_hook=bhook, max_steps=2000)
     try:
         ev.run(unit.body(beg))
     except FD._Return:
@@ -109,7 +130,7 @@ def iterate(unit, block):
             if k == "CXXThisExpr":
                 return 1
             return NotImplemented
-        ev2 = FD.Eval(deref=mem.deref, node_hook=hook, max_steps=6000)
+        ev2 = FD.Eval(deref=mem.deref, call=mem.call, node_hook=hook, max_steps=6000)
         try:
             ev2.run(unit.body(inc))
         except FD._Return:
@@ -118,15 +139,17 @@ def iterate(unit, block):
     return out
 
 
-def length(unit, block):
+def length(unit, block, skip=0):
+    """MetaContainer::length evaluated on a container built on the block's byte `skip` (0: as written, 1: after the
+    leading ':' that Port::meta() strips)"""
     mem = _Mem(block)
     fn = unit.function("MetaContainer::length")
 
     def hook(n, ev):
         if n.get("kind") == "MemberExpr" and n.get("name") == "str_ptr":
-            return BASE
+            return BASE + skip
         return NotImplemented
-    ev = FD.Eval(deref=mem.deref, node_hook=hook, max_steps=8000)
+    ev = FD.Eval(deref=mem.deref, call=mem.call, node_hook=hook, max_steps=8000)
     try:
         ev.run(unit.body(fn))
     except FD._Return as r:
